@@ -198,3 +198,66 @@ Theorem C12_preorder_is_the_machines_rows : forall f o,
   map GluePreSer.par_row (flat_map (pre_par o) f) = SurgeryFacts.rows o f.
 Proof. exact GluePreSer.pre_par_rows. Qed.
 Print Assumptions C12_preorder_is_the_machines_rows.
+
+(* ====================================================================================== *)
+(* Glue C12/C05 <-> C03/C01 (theories/Glue/GlueLoad.v).  Tree._from_list / TypedTree._from_list is modelled
+   twice: by the reader above ([from_list]: creation-ordered node table, [unflat] at the end) and by the
+   mutation machine (Mut/MachineLoad.v [op_load]: every entry is an add_child(data) / add_child(node) step on a
+   tree state with registry, clone index and the uniqueness check of Tree._register; C01 / C03 speak about it).
+   [ldoc] turns the file's entries into the machine's entries (parent index; data object after the mapper,
+   explicit data_id, kind | reference index).  Loaded into a world whose allocator is at 1 (the reader numbers
+   the nodes from 1) the machine accepts every node list the reader accepts and builds EXACTLY the reader's
+   forest - identities, payloads, kinds, clones included - and a UniqueConstraintError of the reader is one of
+   the machine, with no tree added. *)
+From NT Require Machine WF MachineLoad GlueLoad.
+
+Theorem C12_machine_load_builds_the_readers_forest : forall c deser shash w l f,
+  WF.WFw w -> Machine.next w = 1 -> from_list c deser shash l = Ok f ->
+  exists doc w' t',
+    GlueLoad.ldoc c deser shash 1 l = Some doc /\
+    MachineLoad.op_load w (is_typed c) doc = (Machine.Ok [List.length (Machine.trees w)], w') /\
+    Machine.get_tree w' (List.length (Machine.trees w)) = Some t' /\ Machine.forest_of t' = f /\ WF.WF t' /\
+    (forall tj, tj < List.length (Machine.trees w) -> Machine.get_tree w' tj = Machine.get_tree w tj).
+Proof. exact GlueLoad.load_agrees. Qed.
+Print Assumptions C12_machine_load_builds_the_readers_forest.
+
+Theorem C12_machine_load_refuses_alike : forall c deser shash w l doc,
+  WF.WFw w -> Machine.next w = 1 ->
+  from_list c deser shash l = Err EUnique -> GlueLoad.ldoc c deser shash 1 l = Some doc ->
+  fst (MachineLoad.op_load w (is_typed c) doc) = Machine.Err Machine.EUnique /\
+  Machine.trees (snd (MachineLoad.op_load w (is_typed c) doc)) = Machine.trees w.
+Proof. exact GlueLoad.load_refuses_alike. Qed.
+Print Assumptions C12_machine_load_refuses_alike.
+
+(* non-vacuity: the node lists of the user guide's first two documents and the three hand-made files of the
+   C03 corpus, on both models *)
+Definition c12g_nodes (g : gjson) : list jv :=
+  match jv_of_gj g with JDict o => match dget k_nodes o with Some (JList l) => l | _ => [] end | _ => [] end.
+Definition c12g_both (c : cls) (deser : nat -> dict -> res dval) (l : list jv) : bool :=
+  match from_list c deser whash l, GlueLoad.ldoc c deser whash 1 l with
+  | Ok f, Some doc =>
+      match MachineLoad.op_load Machine.empty_world (is_typed c) doc with
+      | (Machine.Ok [0], w') =>
+          match Machine.trees w' with
+          | [t'] => sx_eqb (sx_forest (Machine.forest_of t')) (sx_forest f) && negb (match f with [] => true | _ => false end)
+          | _ => false
+          end
+      | _ => false
+      end
+  | Err e, Some doc =>
+      Z.eqb e EUnique &&
+      match MachineLoad.op_load Machine.empty_world (is_typed c) doc with
+      | (Machine.Err 1, w') => match Machine.trees w' with [] => true | _ => false end
+      | _ => false
+      end
+  | _, None => false
+  end.
+Definition c12g_file (l : list (Z * jv)) : list jv := map (fun pd => JList [JInt (fst pd); snd pd]) l.
+Example C12_machine_load_nonvacuous :
+  c12g_both CPlain (default_deser CPlain whash) (c12g_nodes DOC_EXAMPLE_0) = true /\
+  c12g_both CPlain guide_deser (c12g_nodes DOC_EXAMPLE_1) = true /\
+  c12g_both CTyped (default_deser CTyped whash) (c12g_nodes DOC_EXAMPLE_0) = true /\
+  c12g_both CPlain (default_deser CPlain whash) (c12g_file [(0, JStr [97]); (0, JStr [98]); (0, JStr [97])]%Z) = true /\
+  c12g_both CPlain (default_deser CPlain whash) (c12g_file [(0, JStr [97]); (1, JStr [98]); (1, JInt 2)]%Z) = true /\
+  c12g_both CPlain (default_deser CPlain whash) (c12g_file [(0, JStr [97]); (0, JStr [98]); (2, JInt 1)]%Z) = true.
+Proof. vm_compute. repeat split. Qed.
